@@ -142,7 +142,7 @@ def run_stmts(prog, regs, ins, outs, st):
     for s in prog:
         try:
             run_stmt(s, regs, ins, outs, st)
-        except Exception:
+        except BaseException:
             if st["exn_ctx"] is None:
                 # guard context of the innermost statement that raised: [(cond register, polarity, cond value)]
                 st["exn_ctx"] = [(q, pol, cond_value(regs.get(q))) for q, pol in st["gstack"]]
@@ -174,6 +174,12 @@ def run_stmt(s, regs, ins, outs, st):
             continue
         if op == "bset":
             setattr(st["bv"], "v%d" % s[1], regs[s[2]]); continue
+        if op == "bsetidx":
+            tgt = getattr(st["bv"], "v%d" % s[1])
+            for i in s[2][:-1]: tgt = tgt[i]
+            tgt[s[2][-1]] = regs[s[3]]; continue
+        if op == "raise":
+            raise {"KeyboardInterrupt": KeyboardInterrupt, "SystemExit": SystemExit, "ValueError": ValueError, "RuntimeError": RuntimeError}[s[1]]("raised by the program")
         if op == "breakif":
             br._breakif(regs[s[1]], st["bv"]); continue
         if op == "oif":
@@ -247,6 +253,9 @@ def run_stmt(s, regs, ins, outs, st):
         elif op == "list": v = [regs[i] for i in s[2]]
         elif op == "index": v = regs[s[2]][s[3]]
         elif op == "bget": v = getattr(st["bv"], "v%d" % s[2])
+        elif op == "bgetidx":
+            v = getattr(st["bv"], "v%d" % s[2])
+            for i in s[3]: v = v[i]
         elif op in ("permute", "poseidon"):
             import pysnark.poseidon_hash as ph
             v = ph.permute(regs[s[3]]) if op == "permute" else ph.poseidon_hash(regs[s[3]])
@@ -315,7 +324,7 @@ def run_case(case):
     try:
         run_stmts(case["prog"], st["regs"], case["ins"], outs, st)
     except (AssertionError, ValueError, ZeroDivisionError, TypeError, RuntimeError, NotImplementedError, IndexError,
-            AttributeError, StopIteration) as e:
+            AttributeError, StopIteration, KeyboardInterrupt, SystemExit) as e:
         exn = type(e).__name__
         st["msg"] = str(e)[:200]
     st["bv"].stack.clear()      # BranchingValues.__del__ raises when branches are left open
